@@ -321,7 +321,7 @@ const TOKENS: &[&str] = &[
 /// (lower, upper, title case, no case), non-ASCII white space (NBSP, NEL, U+2028, U+3000),
 /// zero-width and format characters, combining mark, C1 control, DEL is in ASCII, symbols,
 /// 3- and 4-byte encodings, private use, replacement character, the last scalar value.
-const UNICODE_REPS: &str = "²½Ⅰ１٣éΣßǅあ\u{a0}\u{85}\u{2028}\u{3000}\u{200b}\u{feff}\u{301}\u{80}€😀\u{e000}\u{fffd}\u{10ffff}";
+pub const UNICODE_REPS: &str = "²½Ⅰ１٣éΣßǅあ\u{a0}\u{85}\u{2028}\u{3000}\u{200b}\u{feff}\u{301}\u{80}€😀\u{e000}\u{fffd}\u{10ffff}";
 const PAIR_SECOND: [char; 12] = ['a', '1', '$', '\\', '\'', '"', '}', ')', '\n', ' ', '²', '１'];
 /// Lexer contexts; `X` is the hole.
 const CONTEXTS: &[&str] = &[
@@ -424,6 +424,7 @@ pub fn run(tier: Tier) -> i32 {
     let ctx = Ctx::new("C06", "exploration", tier);
     let counters = Counters { inputs: AtomicU64::new(0), parsed_ok: AtomicU64::new(0), roundtrips: AtomicU64::new(0), heredoc_skipped: AtomicU64::new(0) };
     let samples = Samples::new(8);
+    let read_ahead_judged = AtomicU64::new(0);
     // (a) token sequences
     let tmax = tier.pick(3, 4);
     let nt = TOKENS.len();
@@ -436,6 +437,9 @@ pub fn run(tier: Tier) -> i32 {
                 text.push_str("\nbody $v\nE\n");
             }
             check_input(&ctx, &text, &counters);
+            if text.matches('\n').count() >= 1 {
+                super::c06h::read_ahead(&ctx, &text, &read_ahead_judged);
+            }
             if first == 7 {
                 samples.offer(|| json!({"input": text}));
             }
@@ -462,6 +466,7 @@ pub fn run(tier: Tier) -> i32 {
     let scripts = corpus();
     scripts.par_iter().for_each(|(_f, s)| {
         check_input(&ctx, s, &counters);
+        super::c06h::read_ahead(&ctx, s, &read_ahead_judged);
         let toks = rough_tokens(s);
         if toks.len() > 400 {
             return;
@@ -489,6 +494,8 @@ pub fn run(tier: Tier) -> i32 {
             }
         }
     });
+    // (g) here-documents: delimiter spellings x bodies x shapes against XCU 2.7.4 by hand
+    let (heredoc_inputs, heredoc_terminated) = super::c06h::here_docs(&ctx, &samples);
     // (c) raw character soup
     let raw: Vec<char> = "a $'\"`\\{}()<>&|;!#=\n*€é~-".chars().collect();
     let mut cur = vec![String::new()];
@@ -580,7 +587,7 @@ pub fn run(tier: Tier) -> i32 {
         "character_classes": classes.len(),
         "evaluations": counters.inputs.load(Relaxed) + counters.roundtrips.load(Relaxed),
         "distinct_nontrivial": counters.roundtrips.load(Relaxed),
-        "rule": format!("(a) every sequence of <= {tmax} tokens over {} tokens (words with every expansion kind, assignments, all reserved words, all operators, redirections with and without fd, here-document operators with a body, unclosed quotes / $( / ${{ / ` / $(( / $', comment, function headers); (b) every script of the scripted-test corpus ({} scripts) plus every single-token deletion, adjacent swap and truncation (and every character truncation of short ones); (c) every string of length <= {} over 25 raw characters incl. multi-byte; (d) lexer contexts with one hole x all 128 ASCII characters and Unicode class representatives, and with two adjacent holes; (e) every sequence of <= 3/4 tokens over 26 tokens parsed with each of 8 alias tables (self-recursive, mutually recursive, blank-ending chains, global aliases incl. self-referencing and cyclic ones, aliases producing reserved words and operators): the parser must terminate without panic; (f) towers of 9 nested constructs at every depth 1..12 in-process and at depths 30 and 100000 in a subprocess with a wall-clock limit. Every input must make the parser return Ok or Err without panic/hang; for every Ok tree without here-documents the printed text must parse to a structurally equal tree (Debug rendering with all Locations erased), in the default parsing mode and with the `portable` option on. Non-trivial = inputs that parsed and were round-tripped.", TOKENS.len(), scripts.len(), tier.pick(3, 4)),
+        "rule": format!("(a) every sequence of <= {tmax} tokens over {} tokens (words with every expansion kind, assignments, all reserved words, all operators, redirections with and without fd, here-document operators with a body, unclosed quotes / $( / ${{ / ` / $(( / $', comment, function headers); (b) every script of the scripted-test corpus ({} scripts) plus every single-token deletion, adjacent swap and truncation (and every character truncation of short ones); (c) every string of length <= {} over 25 raw characters incl. multi-byte; (d) lexer contexts with one hole x all 128 ASCII characters and Unicode class representatives, and with two adjacent holes; (e) every sequence of <= 3/4 tokens over 26 tokens parsed with each of 8 alias tables (self-recursive, mutually recursive, blank-ending chains, global aliases incl. self-referencing and cyclic ones, aliases producing reserved words and operators): the parser must terminate without panic; (f) towers of 9 nested constructs at every depth 1..12 in-process and at depths 30 and 100000 in a subprocess with a wall-clock limit; (g) here-documents `c <<D` / `c <<-D` for 11 delimiter spellings (plain, quoted in every style, empty, containing a blank, non-ASCII, partly quoted) x every body of <= 3/4 lines over ~14 lines built around the delimiter (itself, doubled, with a blank before / after, with leading tabs, a prefix, empty, tab-only) x 3 shapes (terminated and followed by a command, ending at the delimiter without newline, unterminated): content, the commands that follow, the error for an unterminated body, and the number of lines pulled from a counting line-by-line input when the command is returned (no read-ahead) against XCU 2.7.4 by hand; (h) read-ahead minimality: for every multi-line token sequence and corpus script the parser is fed line by line, and a command returned after line k must not be obtainable, identical, from the input cut after line k-1 (except after a backslash-newline). Every input must make the parser return Ok or Err without panic/hang; for every Ok tree without here-documents the printed text must parse to a structurally equal tree (Debug rendering with all Locations erased), in the default parsing mode and with the `portable` option on. Non-trivial = inputs that parsed and were round-tripped.", TOKENS.len(), scripts.len(), tier.pick(3, 4)),
         "samples": samples.take(),
         "token_sequence_inputs": token_inputs,
         "corpus_scripts": scripts.len(),
@@ -588,6 +595,9 @@ pub fn run(tier: Tier) -> i32 {
         "parsed_ok": counters.parsed_ok.load(Relaxed),
         "roundtrips_checked": counters.roundtrips.load(Relaxed),
         "skipped_here_documents": counters.heredoc_skipped.load(Relaxed),
+        "here_document_inputs": heredoc_inputs,
+        "here_documents_terminated": heredoc_terminated,
+        "read_ahead_inputs_judged": read_ahead_judged.load(Relaxed),
         "exhaustive": true,
     });
     ctx.finish(cov, &["structural equality = Debug rendering with Location values erased", "here-document trees are out of scope of the round trip by the statement (totality still checked)"])
